@@ -46,9 +46,10 @@ def _cases(draw, max_size=10):
     s = draw(gen.score_sets(max_size=max_size, modes=MODES, mag=1e6, containers=("f64", "f64", "f32", "list", "neg-int", "pos-int", "neg-f32", "f128", "series")))
     pops = [len(s["pos"]) + s["ep"], len(s["neg"]) + s["en"],
             len(s["pos"]) + len(s["neg"]) + s["ep"] + s["en"]]
-    k = draw(st.integers(1, 5))
+    k = draw(st.sampled_from([1, 2, 3, 4, 4, 5, 6, 6]))
     targets = sorted(draw(st.lists(gen.target_values(pops), min_size=k, max_size=k)))
     return dict(s=s, targets=targets, derived=draw(st.sampled_from(DERIVED)), seed=draw(gen.RNG_SEED),
+                tlayout=draw(st.sampled_from(["1d", "1d", "F", "T", "strided"])),
                 ratio=draw(st.sampled_from([0.5, 0.8, 0.34])))
 
 
@@ -81,7 +82,8 @@ def check(case):
     rs = np.asarray(case["targets"], dtype=float)
     nontrivial = False
     derived = case.get("derived", "none")
-    labels = [f"mode:{s['mode']}", f"container:{s.get('container')}", f"object:{derived}"]
+    labels = [f"mode:{s['mode']}", f"container:{s.get('container')}", f"object:{derived}",
+              f"targets:{case.get('tlayout', '1d')}"]
     for sc, ec in CONFIGS:
         obj = _obj(s, sc, ec)
         if derived != "none":
@@ -98,14 +100,25 @@ def check(case):
             ep, en = int(obj.nb_easy_pos), int(obj.nb_easy_neg)
         sc_o, ec_o = obj.score_class.value, obj.equal_class.value
         for m in METRICS:
-            nontrivial |= _check_metric(obj, m, pos, neg, ep, en, rs, sc_o, ec_o, labels)
+            nontrivial |= _check_metric(obj, m, pos, neg, ep, en, rs, sc_o, ec_o, labels, case.get("tlayout", "1d"))
     s_ep, s_en = s["ep"], s["en"]
     if s_ep or s_en:
         labels.append("easy")
     return dict(nontrivial=nontrivial, labels=sorted(set(labels)))
 
 
-def _check_metric(obj, m, pos, neg, ep, en, rs, sc, ec, labels):
+def _as_layout(rs, layout):
+    """The same targets as a 2-D array in Fortran order / as a transposed view / as a strided 1-D view;
+    results are read back in C order, i.e. element by element."""
+    if layout == "strided":
+        return np.repeat(rs, 2)[::2]
+    if layout in ("F", "T") and len(rs) >= 4 and len(rs) % 2 == 0:
+        a = rs.reshape(2, -1)
+        return np.asfortranarray(a) if layout == "F" else np.ascontiguousarray(a.T).T
+    return rs.copy()
+
+
+def _check_metric(obj, m, pos, neg, ep, en, rs, sc, ec, labels, tlayout="1d"):
     nontrivial = False
     if True:
         rel = [float(x) for x in relevant_scores(m, pos, neg)]
@@ -127,10 +140,14 @@ def _check_metric(obj, m, pos, neg, ep, en, rs, sc, ec, labels):
         if True:
             f = getattr(obj, m)
             th = getattr(obj, "threshold_at_" + m)
-            rs_in = rs.copy()
+            rs_in = _as_layout(rs, tlayout)
+            rs_in0 = rs_in.copy()
             t_lin = np.asarray(th(rs_in), dtype=float)
             t_lo = np.asarray(th(rs_in, method="lower"), dtype=float)
             t_hi = np.asarray(th(rs_in, method="higher"), dtype=float)
+            require(t_lin.shape == rs_in.shape and t_lo.shape == rs_in.shape and t_hi.shape == rs_in.shape,
+                    "ts:shape", f"metric={m}: {t_lin.shape} for targets of shape {rs_in.shape}")
+            t_lin, t_lo, t_hi = t_lin.reshape(-1), t_lo.reshape(-1), t_hi.reshape(-1)
             ctx = f"metric={m} config={sc}/{ec}"
             require(t_lin.shape == rs.shape and t_lo.shape == rs.shape and t_hi.shape == rs.shape,
                     "ts:shape", ctx)
@@ -187,13 +204,13 @@ def _check_metric(obj, m, pos, neg, ep, en, rs, sc, ec, labels):
             # 5. aliases, scalar calls, caller array untouched
             al = getattr(obj, "threshold_at_" + ALIASES[m])
             for meth, ref in (("linear", t_lin), ("lower", t_lo), ("higher", t_hi)):
-                require(np.array_equal(np.asarray(al(rs_in, method=meth)), ref), "ts:alias",
+                require(np.array_equal(np.asarray(al(rs_in, method=meth)).reshape(-1), ref), "ts:alias",
                         f"{ctx} {meth}")
             i = len(rs) // 2
             sv = th(float(rs[i]))
             require(float(sv) == float(t_lin[i]), "ts:scalar-vs-array",
                     lambda: f"{ctx} r={rs[i]!r} scalar {sv!r} array {t_lin[i]!r}")
-            require(np.array_equal(rs_in, rs), "ts:mutated-input", ctx)
+            require(np.array_equal(rs_in, rs_in0), "ts:mutated-input", ctx)
     return nontrivial
 
 
@@ -267,6 +284,18 @@ def check_large(case):
             incr = (mt in INCREASING) == (sc == "pos")
             require(not (bool(np.any(d < 0)) if incr else bool(np.any(d > 0))), "ts:not-monotone",
                     f"n={n} m={m} metric={mt} config={sc}/{ec}")
+            # one call with very many targets in arbitrary order: element i answers target i
+            if case.get("k", 0) == 0 and mt in ("tpr", "fpr", "tonr"):
+                L = 150_001
+                grid = lo + (hi - lo) * ((np.arange(L) * 7919) % L) / L  # a permutation of an even grid
+                tt = np.asarray(getattr(o, "threshold_at_" + mt)(grid), dtype=float)
+                cc = np.asarray(getattr(o, mt)(tt), dtype=float)
+                e2 = np.abs(cc - grid) * Nm
+                j2 = int(np.argmax(e2))
+                require(tt.shape == grid.shape and e2[j2] <= 1.0 + 1e-3, "ts:roundtrip",
+                        lambda: f"n={n} m={m} metric={mt} config={sc}/{ec}: in one call with {L} unsorted targets, "
+                                f"element {j2} (r={grid[j2]!r}) got threshold {tt[j2]!r} with {mt}={cc[j2]!r}, off by "
+                                f"{e2[j2]:.1f} samples")
     return dict(nontrivial=True, labels=["large-n"])
 
 
